@@ -456,8 +456,12 @@ def expand(prog, f, depth=2, local_only=False, skip_names=()):
                     cnode = callee.node if isinstance(callee, FuncInfo) else callee
                     is_gen = any(isinstance(x, (ast.Yield, ast.YieldFrom)) for x in ast.walk(cnode))
                     # `return gen_helper(...)`: the caller hands out the helper's generator; read as the generator itself
+                    # (only when nothing with an effect precedes the return here: the helper's body runs lazily, what precedes runs now)
+                    def _quiet(ss):
+                        return all(isinstance(s_, ast.Assign) and all(isinstance(t_, ast.Name) for t_ in s_.targets) or isinstance(s_, (ast.Pass, ast.AnnAssign))
+                                   or (isinstance(s_, ast.Expr) and isinstance(s_.value, ast.Constant)) for s_ in ss)
                     gen_ok = is_gen and kind == "return" and all(
-                        x.value is None for x in ast.walk(cnode) if isinstance(x, ast.Return))
+                        x.value is None for x in ast.walk(cnode) if isinstance(x, ast.Return)) and _quiet(stmts[:stmts.index(st)])
                     if cnode is not f.node and cnode.name not in skip_names and (not is_gen or gen_ok) \
                             and not (local_only and isinstance(callee, FuncInfo) and callee.module is not f.module):
                         self_expr = copy.deepcopy(call.func.value) if isinstance(call.func, ast.Attribute) else None
